@@ -131,6 +131,12 @@ theorem es_error_exits_nil_exe :
       ["cancel() ;; if err != nil { if _, is := err.(*goja.InterruptedError); is { return nil, Interrupted } return nil, err }"] := by
   decide
 
+/-- C08: every return of `Exec` that follows the start of the run and carries an error hands back a
+    nil execution — there is no error exit through which the emission buffer could leave. -/
+theorem es_every_error_exit_nil_exe :
+    (stmt "Interpreter.Exec.errorReturnsAfterRun").all (· == "nil") = true ∧
+    (stmt "Interpreter.Exec.errorReturnsAfterRun").length ≥ 5 := by decide
+
 /-- C11: the watcher goroutine waits for the derived context and interrupts the runtime. -/
 theorem es_watcher :
     stmt "Interpreter.Exec.watcher" = ["<-ictx.Done() ;; o.Interrupt(InterruptedMessage)"] ∧
